@@ -30,6 +30,8 @@ func main() {
 	flag.BoolVar(&dumpAll, "dumpall", false, "keep every script in -keep dir")
 	verifDir := flag.String("verif", "/verif", "verification directory (known findings, replays)")
 	level := flag.String("level", "proof", "evidence level")
+	sweep := flag.String("sweep", "", "extra whole-package pass: determinism")
+	allow := flag.String("allow", "", "allow-list file for the sweep")
 	flag.Parse()
 	origPath = os.Getenv("PATH")
 	os.Setenv("PATH", "/opt/veriftools/go1.26.8/bin:"+os.Getenv("PATH"))
@@ -94,6 +96,15 @@ func main() {
 		r := verifyFunction(L, fn, fs)
 		results = append(results, r)
 	}
+	for _, d := range L.Con.Lemmas {
+		if re != nil && !re.MatchString("lemma "+d.Name) {
+			continue
+		}
+		if *prop != "" && !contains(d.Serves, *prop) {
+			continue
+		}
+		results = append(results, verifyLemma(L, d))
+	}
 	tgen := time.Since(t0)
 	seed := 0
 	if s := os.Getenv("VERIF_SEED"); s != "" {
@@ -123,7 +134,7 @@ func main() {
 	rep := &Report{L: L, Results: results, Verdicts: verdicts, Prop: *prop, Tier: *tier, Seed: seed, GenS: tgen.Seconds(), T0: t0,
 		Evidence: *evidence, ReplayDir: *replayDir, KnownFile: *known, Known: knownList, LockFile: *lock, UpdateLock: *updateLock, Verbose: *verbose,
 		TimeoutMs: tmo, Tags: *tags, FuncFilter: *fnre, VerifDir: *verifDir, Level: *level,
-		CheckerCmd: strings.Join(os.Args, " ")}
+		CheckerCmd: strings.Join(os.Args, " "), Sweep: *sweep, AllowFile: *allow}
 	os.Exit(rep.Finish())
 }
 
@@ -161,6 +172,8 @@ type Report struct {
 	CheckerCmd  string
 	Bounded     any
 	Explanation string
+	Sweep       string
+	AllowFile   string
 }
 
 func indent(s string) string {
